@@ -670,7 +670,7 @@ func (s *Server) cmdSET(msg *Message) (resp.Value, commandDetails, error) {
 			if err != nil {
 				return retwerr(errInvalidArgument(exval))
 			}
-			ex = time.Now().UnixNano() + int64(float64(time.Second)*x)
+			ex = expiresAfter(time.Now(), x)
 		case "nx":
 			if xx {
 				return retwerr(errInvalidArgument(args[i]))
@@ -881,6 +881,21 @@ func (s *Server) cmdSET(msg *Message) (resp.Value, commandDetails, error) {
 	return res, d, nil
 }
 
+// expiresAfter returns the deadline, in unix nanoseconds, that lies the given
+// number of seconds after now. It saturates instead of overflowing, so that a
+// huge TTL does not wrap around into the past.
+func expiresAfter(now time.Time, seconds float64) int64 {
+	nano := now.UnixNano()
+	d := float64(time.Second) * seconds
+	if math.IsNaN(d) || d >= float64(math.MaxInt64-nano) {
+		return math.MaxInt64
+	}
+	if d <= -float64(nano) {
+		return 1 // as far in the past as a set deadline can be
+	}
+	return nano + int64(d)
+}
+
 func retwerr(err error) (resp.Value, commandDetails, error) {
 	return resp.Value{}, commandDetails{}, err
 }
@@ -1085,8 +1100,7 @@ func (s *Server) cmdEXPIRE(msg *Message) (resp.Value, commandDetails, error) {
 	col, _ := s.cols.Get(key)
 	if col != nil {
 		// replace the expiration by getting the old object
-		ex := time.Now().Add(
-			time.Duration(float64(time.Second) * value)).UnixNano()
+		ex := expiresAfter(time.Now(), value)
 		o := col.Get(id)
 		ok = o != nil
 		if ok {
